@@ -16,7 +16,7 @@ bad = []
 for p in props:
     cfg = json.load(open(os.path.join("props", p + ".json")))
     d = cfg.get("coq_dir", p)
-    rc, out = vcheck.coq_make(["%s/Properties.vo" % d, "%s/Corr.vo" % d], dirs=vcheck.prop_dirs(d))
+    rc, out = vcheck.coq_make(["%s/Properties.vo" % d, "%s/Corr.vo" % d, "Lib/Lit.vo"], dirs=vcheck.prop_dirs(d))
     if rc != 0:
         print(out[-3000:])
         bad.append(p + " (coq)")
